@@ -862,6 +862,7 @@ fn round_w2(seed: u64, pm: u64) -> Result<(usize, usize), String> {
     let ob = SharedObservable::new(Vec::<u64>::new());
     let clock = Arc::new(Clock(AtomicU64::new(0)));
     let writers_done = Arc::new(Quiesce(AtomicBool::new(false)));
+    let closed = Arc::new(Quiesce(AtomicBool::new(false)));
     let start = Arc::new(std::sync::Barrier::new(writers + n_subs));
     let mut whs = vec![];
     for t in 0..writers {
@@ -917,6 +918,7 @@ fn round_w2(seed: u64, pm: u64) -> Result<(usize, usize), String> {
         let mut s = ob.subscribe();
         let clock = clock.clone();
         let done = writers_done.clone();
+        let closed = closed.clone();
         let start = start.clone();
         let sseed = mix(seed, 50 + k as u64);
         shs.push(std::thread::spawn(move || -> Result<Vec<ListRead>, String> {
@@ -963,8 +965,9 @@ fn round_w2(seed: u64, pm: u64) -> Result<(usize, usize), String> {
                             } else if !fin.is_empty() {
                                 return Err(format!("subscriber {k} is Pending after the writers finished and never saw any of the {} updates", fin.len()));
                             }
-                            // wait for the close now
-                            while !flag.woken() {
+                            // wait for the close now (whether the close wakes this waker is C02's
+                            // business, not C04's: do not hang on it)
+                            while !flag.woken() && !closed.get() {
                                 std::thread::park_timeout(Duration::from_millis(2));
                             }
                             break;
@@ -991,6 +994,7 @@ fn round_w2(seed: u64, pm: u64) -> Result<(usize, usize), String> {
     // give the subscribers a moment to run their final-value check, then close
     std::thread::sleep(Duration::from_micros(300));
     drop(ob);
+    closed.set();
     let mut sub_reads: Vec<Vec<ListRead>> = vec![];
     for h in shs {
         sub_reads.push(h.join().map_err(|_| "subscriber panicked".to_string())??);
